@@ -133,6 +133,34 @@ PROPS["C03"] = {
     ],
 }
 
+# ---------------------------------------------------------------- C06
+PROPS["C06"] = {
+    "theorems": [
+        "Lace.C06.obj_length",
+        "Lace.C06.words_of_obj",
+        "Lace.C06.run_obj_eq_run_src",
+        "Lace.C06.loader_accepts_iff",
+        "Lace.C06.loader_never_panics",
+        "Lace.C03.load_spec",
+    ],
+    "needs_bin": True,
+    "compare": cmp_default,
+    "classify": lambda rq, impl: rq.split(" ", 1)[0] + ":" + " ".join(impl.split(" ")[:2 if impl.startswith("fin") else 1]),
+    "nontrivial": lambda rq, impl: True,
+    "group": lambda d: d["request"].split(" ", 1)[0],
+    "rule": ("process mode: generated programs (as .orig/.fill sources, origin present or defaulted) are compiled with the "
+             "real `lace compile`; the written bytes are compared with objBytes; the object file and the source are "
+             "run with `lace run` (both output modes, with and without -f stack, with input) and stdout + exit "
+             "status compared with the model of main.rs::run and with each other; arbitrary byte strings (every "
+             "length parity, empty, any first word, images ending at / one below / one above the top of memory) "
+             "are offered as .lc3/.obj files. Every case is distinct by construction (fresh random program or bytes)."),
+    "trusted": [
+        "clap argument parsing and real file-system semantics",
+        "the words of generated sources are given as .fill directives here; instruction encoding is C01",
+    ],
+    "assumptions": ["status lines printed by main.rs (`Assembling/Running/Completed target <file>`) are part of stdout and are modelled"],
+}
+
 PROPS["C02"]["theorems"] = [
     "Lace.C02.execute_eq_isa",
     "Lace.C02.exec_frame",
